@@ -53,8 +53,10 @@ def prog_hook(prog, rng):
 
 
 def run(params):
+    from .common import reload_monitors
     r = generic_run(PID, params, knobs=KNOBS, policy='any',
                     prog_hook=prog_hook,
+                    monitors=reload_monitors(params['seed'], 'c11', every=4),
                     plan_kw={'p_fail': 0.4, 'p_optout': 0.5})
     st = r.get('stats') or {}
     pr = st.get('probes', {})
